@@ -89,20 +89,9 @@ class BlockChecker:
         return assigned
 
 
-def _run_base(ctx):
-    repo, cg = ctx.repo, ctx.cg
-    ctx.rule('R03.1', 'chunk-type switch of _merge_lists is exhaustive over the 36 (local,remote) chunk types: no aborting arm reachable, '
-             'no use-before-assignment on any reachable path', floor=36, floor_what='36 chunk-type pairs')
-    ctx.rule('R03.2', 'dict-op table of _merge_dicts is exhaustive over MappingDiffBuilder.OPS^2 + parent_deleted pairings', floor=18)
-    ctx.rule('R03.3', 'every action the decision builder can emit has a non-raising arm in resolve_action', floor=7)
-    ctx.rule('R03.4', 'every strategy the strategy table can hold hits only non-raising arms where it lands; "fail" only on constant/string-typed paths',
-             floor=40, floor_what='(path, strategy, resolver) triples')
-    ctx.rule('R03.5', 'the internal parent_deleted pseudo-op stays internal (one producer, first arms of the consumer, sentinel tested before patch)', floor=4)
-    ctx.rule('R03.7', 'index arithmetic of the concurrent-insert splitter is consistent across its arms (wrong offsets index past the remote list)', floor=4)
-    ctx.rule('R03.8', 'the built-in renderer indexes its line lists only behind an emptiness test', floor=3)
-    ctx.rule('R03.9', 'the per-field dispatch that merges two similar inserted cells has an arm for every field the cell schema defines', floor=5)
-    ctx.rule('R03.6', 'renderer selection is total (unconditional built-in fallback) and every renderer returns a 2-tuple on every path', floor=5)
-
+def chunk_switch_model(repo, cg):
+    """The chunk-type switch of _merge_lists as a finite model: for each of the 36 (local, remote) chunk types an evaluator whose
+    environment binds the chunk diffs and their a/p parts to abstract values (sets of op letters)."""
     consts = mf.diffop_consts(repo)
     letters = mf.chunk_letters(repo)
     seq_ops = mf.builder_ops(repo, 'SequenceDiffBuilder')
@@ -150,7 +139,8 @@ def _run_base(ctx):
     pnames = [''] + p_letters
     combos = list(itertools.product(names, pnames, names, pnames))
     arm_hits = {}
-    for la, lp, ra, rp in combos:
+
+    def make_ev(la, lp, ra, rp):
         env = {unpack[d_local][0]: la, unpack[d_local][1]: lp, unpack[d_remote][0]: ra, unpack[d_remote][1]: rp,
                d_local: Abstract(la + lp, letter_ops), d_remote: Abstract(ra + rp, letter_ops)}
         ev = Evaluator(env, consts)
@@ -169,6 +159,30 @@ def _run_base(ctx):
                     ev.env[nm] = Abstract(a_part if (is_add == eqop) else p_part, letter_ops)
                 else:
                     ev.env[nm] = ev.ev(v)
+        return ev
+    return dict(consts=consts, letters=letters, seq_ops=seq_ops, map_ops=map_ops, letter_ops=letter_ops, ml=ml, loop=loop, bigif=bigif, arms=arms,
+                pre=pre, tracked=tracked, combos=combos, make_ev=make_ev, d_local=d_local, d_remote=d_remote, unpack=unpack)
+
+
+def _run_base(ctx):
+    repo, cg = ctx.repo, ctx.cg
+    ctx.rule('R03.1', 'chunk-type switch of _merge_lists is exhaustive over the 36 (local,remote) chunk types: no aborting arm reachable, '
+             'no use-before-assignment on any reachable path', floor=36, floor_what='36 chunk-type pairs')
+    ctx.rule('R03.2', 'dict-op table of _merge_dicts is exhaustive over MappingDiffBuilder.OPS^2 + parent_deleted pairings', floor=18)
+    ctx.rule('R03.3', 'every action the decision builder can emit has a non-raising arm in resolve_action', floor=7)
+    ctx.rule('R03.4', 'every strategy the strategy table can hold hits only non-raising arms where it lands; "fail" only on constant/string-typed paths',
+             floor=40, floor_what='(path, strategy, resolver) triples')
+    ctx.rule('R03.5', 'the internal parent_deleted pseudo-op stays internal (one producer, first arms of the consumer, sentinel tested before patch)', floor=4)
+    ctx.rule('R03.7', 'index arithmetic of the concurrent-insert splitter is consistent across its arms (wrong offsets index past the remote list)', floor=4)
+    ctx.rule('R03.8', 'the built-in renderer indexes its line lists only behind an emptiness test', floor=3)
+    ctx.rule('R03.9', 'the per-field dispatch that merges two similar inserted cells has an arm for every field the cell schema defines', floor=5)
+    ctx.rule('R03.6', 'renderer selection is total (unconditional built-in fallback) and every renderer returns a 2-tuple on every path', floor=5)
+
+    _m = chunk_switch_model(repo, cg)
+    consts, map_ops, bigif, arms, tracked, combos = _m['consts'], _m['map_ops'], _m['bigif'], _m['arms'], _m['tracked'], _m['combos']
+    arm_hits = {}
+    for la, lp, ra, rp in combos:
+        ev = _m['make_ev'](la, lp, ra, rp)
         bc = BlockChecker(ev, tracked)
         reach = reachable_arms(ev, bigif)
         for idx, body in reach:
